@@ -102,7 +102,48 @@ def r_c13_field_order_fixedstruct(s4, repo, scratch):
             'failed': not (l1 and starts_with_file and l1 == l2)}
 
 
+def r_c01_tie_order(s4, repo, scratch):
+    """messages of different sources with the same instant are printed in the order the sources were named"""
+    names = ['d', 'a', 'h', 'c', 'b', 'g', 'e', 'f']
+    paths = []
+    for n in names:
+        p = os.path.join(scratch, 'c01_%s.log' % n)
+        with open(p, 'w') as f:
+            for sec in (1, 2, 3):
+                f.write('2024-01-01 00:00:%02d +00:00 source %s message %d\n' % (sec, n, sec))
+        paths.append(p)
+    want = ''.join(n for sec in (1, 2, 3) for n in names)
+    got_all = []
+    ok = True
+    for _ in range(4):
+        rc, out, err = run_s4(s4, ['--color', 'never'] + paths)
+        got = ''.join(l.split(b'source ')[1][:1].decode() for l in out.split(b'\n') if b'source ' in l)
+        got_all.append(got)
+        if got != want:
+            ok = False
+    return {'name': 'C01.tie_order', 'input': paths[0], 'how_made': 'eight text logs, each with three messages at the same three instants; named in the order d a h c b g e f',
+            'cmd': '%s --color never %s' % (s4, ' '.join(paths)), 'expected': want, 'observed': ' | '.join(got_all), 'failed': not ok}
+
+
+def r_c01_chronological(s4, repo, scratch):
+    """the merge of chronological sources is chronological and keeps each source's order"""
+    a = os.path.join(scratch, 'c01_x.log'); b = os.path.join(scratch, 'c01_y.log')
+    with open(a, 'w') as f:
+        for sec in (1, 4, 5, 9):
+            f.write('2024-01-01 00:00:%02d +00:00 x %d\n' % (sec, sec))
+    with open(b, 'w') as f:
+        for sec in (2, 3, 5, 7, 8):
+            f.write('2024-01-01 00:00:%02d +00:00 y %d\n' % (sec, sec))
+    rc, out, err = run_s4(s4, ['--color', 'never', b, a])
+    got = [l.split()[3].decode() + l.split()[4].decode() for l in out.split(b'\n') if l.strip()]
+    want = ['x1', 'y2', 'y3', 'x4', 'y5', 'x5', 'y7', 'y8', 'x9']
+    return {'name': 'C01.chronological', 'input': a, 'how_made': 'two interleaved text logs with one tie (second 5); y named first',
+            'cmd': '%s --color never %s %s' % (s4, b, a), 'expected': ' '.join(want), 'observed': ' '.join(got), 'failed': got != want}
+
+
 RECIPES = {
+    'C01': [r_c01_tie_order, r_c01_chronological],
+    'C06': [r_c01_tie_order, r_c01_chronological],
     'C13': [r_c13_field_order_fixedstruct],
     'C03': [r_c03_journal_before_inclusive],
     'C08': [r_c08_equal_times, r_c08_order],
